@@ -189,6 +189,7 @@ def replay(kind):
             op = LO.TriangularLinearOperator(Lm.mT if kind == "TriangularUpper" else Lm, upper=kind == "TriangularUpper")
         elif kind in ("CholLower", "CholUpper"):
             Lm = torch.tril(rn(*batch, n, n)) + 3 * torch.eye(n, dtype=torch.float64)
+            Lm = Lm * torch.tensor([1.0, -1.0, 1.0, -1.0], dtype=torch.float64)  # a non-canonical factor (negative diagonal entries): L L^T is the same PD matrix
             op = LO.CholLinearOperator(LO.TriangularLinearOperator(Lm.mT if kind == "CholUpper" else Lm, upper=kind == "CholUpper"), upper=kind == "CholUpper")
         else:
             return {"reproduced": False, "detail": "no native family"}
